@@ -1752,3 +1752,46 @@ def selection_width(rep, lib, rid="C15-WIDTH"):
             r.bad("SelectionProcess::" + m, bad[1], bad[0].where())
         else:
             r.ok("SelectionProcess::" + m, "every self.next.%s receives %s(self.name, ..)" % (m, ext), calls[0].where())
+
+
+# ------------------------------------------------------------------ C15-BYTE-TEXT
+
+def byte_text(rep, lib, rid="C15-BYTE-TEXT"):
+    """A name given on the command line (a column title, a variable name) is UTF-8 text: it is collected as bytes and
+    decoded. A byte cast to `char` is a Latin-1 code point, so pushing such a char onto a kept string spells every
+    non-ASCII name wrongly (`Prénom` -> `PrÃ©nom`) in the header row."""
+    r = rep.rule(rid, "no byte of option or input text becomes a character of a kept string by a bare `as char` "
+                 "cast (that decodes UTF-8 as Latin-1): such casts feed error values and tests only", floor=5,
+                 analysis="A7 census of u8 -> char casts + forward copy propagation to String-building calls")
+    sinks = ("std::string::String::push", "std::string::String::insert", "std::string::String::extend",
+             "<std::string::String as std::iter::Extend<char>>::extend",
+             "<std::string::String as std::iter::FromIterator<char>>::from_iter")
+    for name, b in sorted(lib.bodies.items()):
+        sites = []
+        for bb, idx, place, rv, _ in b.assignments():
+            if rv["k"] == "cast" and rv.get("ty") == "char":
+                src = (rv["op"].get("place") or {}).get("ty") or rv["op"].get("ty")
+                if src == "u8" and not place["p"]:
+                    sites.append((bb, place["l"]))
+        for c in b.calls:
+            if (c.name or "").endswith("<impl std::convert::From<u8> for char>::from") and not c.dest["p"]:
+                sites.append((c.bb, c.dest["l"]))
+        for k, (bb, l) in enumerate(sites):
+            tainted = {l}
+            grew = True
+            while grew:
+                grew = False
+                for _bb, _idx, place, rv, _ in b.assignments():
+                    if rv["k"] == "use" and rv["op"].get("k") in ("copy", "move") and rv["op"]["place"]["l"] in tainted \
+                            and not place["p"] and place["l"] not in tainted:
+                        tainted.add(place["l"])
+                        grew = True
+            hit = [c for c in b.calls if (c.name or "").startswith(sinks) and
+                   any(a.get("k") in ("copy", "move") and a["place"]["l"] in tainted for a in c.args[1:])]
+            key = "%s#cast[%d]" % (name[-60:], k)
+            if hit:
+                r.bad(key, "a byte cast to char is appended to a string (%s): every non-ASCII character of the text "
+                      "is spelled as its UTF-8 bytes read as Latin-1" % hit[0].name, hit[0].where())
+            else:
+                r.ok(key, "feeds an error value / a test", b.where(bb), nontrivial=False)
+    return r
